@@ -151,6 +151,10 @@ def gen_consts():
            f"def oncompletionNames : List (String × Nat) := [" + ", ".join(f"({lean_str(n)}, {int(TE.oncompletion_to_tealer_type(n).value)})" for n in ["NoOp", "OptIn", "CloseOut", "ClearState", "UpdateApplication", "DeleteApplication"]) + "]",
            f"def typeEnumNames : List (String × Nat) := [" + ", ".join(f"({lean_str(n)}, {int(TE.transaction_type_to_tealer_type(n).value)})" for n in ["pay", "keyreg", "acfg", "axfer", "afrz", "appl"]) + "]",
            f"def addrMarkers : List String := [{lean_str(addr_fields.ANY_ADDRESS)}, {lean_str(addr_fields.NO_ADDRESS)}, {lean_str(addr_fields.SOME_ADDRESS)}, {lean_str(addr_fields.CREATOR_ADDRESS)}]",
+           f"def ANY_ADDRESS : String := {lean_str(addr_fields.ANY_ADDRESS)}",
+           f"def NO_ADDRESS : String := {lean_str(addr_fields.NO_ADDRESS)}",
+           f"def SOME_ADDRESS : String := {lean_str(addr_fields.SOME_ADDRESS)}",
+           f"def CREATOR_ADDRESS : String := {lean_str(addr_fields.CREATOR_ADDRESS)}",
            f"def addrBaseKeys : List String := [" + ", ".join(lean_str(k) for k in addr_fields.AddrFields.BASE_KEYS) + "]",
            f"def feeBaseKeys : List String := [" + ", ".join(lean_str(k) for k in fee_field.FeeField.BASE_KEYS) + "]",
            f"def intBaseKeys : List String := [" + ", ".join(lean_str(k) for k in int_fields.GroupIndices.BASE_KEYS) + "]",
@@ -231,11 +235,175 @@ class FeeTranslator:
         raise Untranslatable(ast.dump(s)[:200])
 
 
+class IntTranslator(FeeTranslator):
+    """GroupIndices._get_asserted_int_values -> Lean over lists of naturals.  Adds: list literals, `[i for i in U if i OP c]`,
+    `U = list(x)`, and the in-place `if c in U: U.remove(c)` (the first occurrence is removed, as list.remove does)."""
+    def expr(self, e):
+        if isinstance(e, ast.List):
+            return "[" + ", ".join(self.expr(x) for x in e.elts) + "]"
+        if isinstance(e, ast.ListComp) and len(e.generators) == 1 and isinstance(e.elt, ast.Name):
+            g = e.generators[0]
+            if isinstance(g.target, ast.Name) and g.target.id == e.elt.id and isinstance(g.iter, ast.Name) and len(g.ifs) == 1 and not g.is_async:
+                return f"({g.iter.id}.filter fun {g.target.id} => {self.expr(g.ifs[0])})"
+            raise Untranslatable(ast.dump(e)[:200])
+        if isinstance(e, ast.Compare) and len(e.ops) == 1 and isinstance(e.ops[0], ast.In):
+            return f"({self.expr(e.comparators[0])}.contains {self.expr(e.left)})"
+        return super().expr(e)
+
+    def body(self, stmts, fallthrough=None):
+        if stmts:
+            s = stmts[0]
+            if (isinstance(s, ast.Assign) and len(s.targets) == 1 and isinstance(s.targets[0], ast.Name) and isinstance(s.value, ast.Call)
+                    and isinstance(s.value.func, ast.Name) and s.value.func.id == 'list' and len(s.value.args) == 1 and isinstance(s.value.args[0], ast.Name)):
+                return f"(let {s.targets[0].id} := {s.value.args[0].id}; {self.body(stmts[1:], fallthrough)})"
+            if (isinstance(s, ast.If) and not s.orelse and len(s.body) == 1 and isinstance(s.body[0], ast.Expr) and isinstance(s.body[0].value, ast.Call)
+                    and isinstance(s.body[0].value.func, ast.Attribute) and s.body[0].value.func.attr == 'remove'
+                    and isinstance(s.body[0].value.func.value, ast.Name) and len(s.body[0].value.args) == 1):
+                v = s.body[0].value.func.value.id
+                x = self.expr(s.body[0].value.args[0])
+                return f"(let {v} := (if {self.expr(s.test)} then {v}.erase {x} else {v}); {self.body(stmts[1:], fallthrough)})"
+        return super().body(stmts, fallthrough)
+
+
+class SetTranslator(FeeTranslator):
+    """set-valued lattice operations (AddrFields / GroupIndices / TxnType `_union`, `_intersection`, `_universal_set`,
+    `_null_set`) -> Lean over strictly sorted lists (Tealer.OSet): `x in a`, `a | b`, `a & b`, `set(a)`, `set([c])`, and calls
+    of the class's own one-line `_universal_set()` / `_null_set()` methods, which are translated in place"""
+    CONSTS = ('ANY_ADDRESS', 'NO_ADDRESS', 'SOME_ADDRESS', 'CREATOR_ADDRESS')
+
+    def __init__(self, cls):
+        super().__init__()
+        self.cls = cls
+
+    def inline(self, name):
+        import textwrap
+        tree = ast.parse(textwrap.dedent(inspect.getsource(getattr(self.cls, name)))).body[0]
+        return self.body(tree.body)
+
+    def expr(self, e):
+        if isinstance(e, ast.Name) and e.id in self.CONSTS:
+            return f"Tealer.Generated.{e.id}"
+        if isinstance(e, ast.Compare) and len(e.ops) == 1 and isinstance(e.ops[0], ast.In):
+            return f"({self.expr(e.comparators[0])}.contains {self.expr(e.left)})"
+        if isinstance(e, ast.BinOp) and isinstance(e.op, ast.BitOr):
+            return f"(Tealer.OSet.union {self.expr(e.left)} {self.expr(e.right)})"
+        if isinstance(e, ast.BinOp) and isinstance(e.op, ast.BitAnd):
+            return f"(Tealer.OSet.inter {self.expr(e.left)} {self.expr(e.right)})"
+        if isinstance(e, ast.Call) and isinstance(e.func, ast.Name) and e.func.id == 'set' and len(e.args) == 1 and not e.keywords:
+            a = e.args[0]
+            if isinstance(a, ast.Name): return a.id                       # a copy of a set is the set
+            if isinstance(a, ast.List): return "(Tealer.OSet.ofList [" + ", ".join(self.expr(x) for x in a.elts) + "])"
+            raise Untranslatable(ast.dump(e)[:200])
+        if (isinstance(e, ast.Call) and isinstance(e.func, ast.Attribute) and isinstance(e.func.value, ast.Name) and e.func.value.id == 'self'
+                and e.func.attr in ('_universal_set', '_null_set') and not e.args and not e.keywords):
+            return self.inline(e.func.attr)
+        return super().expr(e)
+
+
+class DetectorTranslator(FeeTranslator):
+    """the nested `checks_field(block_ctx)` predicate of a detector -> Lean over the fields detectors read (GCtx)"""
+    ATTR = {('rekeyto', 'any_addr'): 'rekeytoAny', ('closeto', 'any_addr'): 'closetoAny', ('assetcloseto', 'any_addr'): 'assetclosetoAny',
+            ('sender', 'any_addr'): 'senderAny'}
+    DIRECT = {'transaction_types': 'types', 'max_fee': 'maxFee', 'max_fee_unknown': 'maxFeeUnknown'}
+
+    def __init__(self, arg, enum):
+        super().__init__()
+        self.arg, self.enum = arg, enum
+
+    def expr(self, e):
+        if isinstance(e, ast.Attribute):
+            if isinstance(e.value, ast.Attribute) and isinstance(e.value.value, ast.Name) and e.value.value.id == self.arg:
+                f = self.ATTR.get((e.value.attr, e.attr))
+                if f is None: raise Untranslatable(ast.dump(e)[:200])
+                return f"c.{f}"
+            if isinstance(e.value, ast.Name) and e.value.id == self.arg:
+                f = self.DIRECT.get(e.attr)
+                if f is None: raise Untranslatable(ast.dump(e)[:200])
+                return f"c.{f}"
+            if isinstance(e.value, ast.Name) and e.value.id == 'TealerTransactionType':
+                return str(int(getattr(self.enum, e.attr).value))        # the enum member's number, read from /repo
+            raise Untranslatable(ast.dump(e)[:200])
+        if isinstance(e, ast.Compare) and len(e.ops) == 1 and isinstance(e.ops[0], ast.In):
+            return f"({self.expr(e.comparators[0])}.contains {self.expr(e.left)})"
+        if isinstance(e, ast.Compare) and len(e.ops) == 1 and isinstance(e.ops[0], ast.NotIn):
+            return f"(!({self.expr(e.comparators[0])}.contains {self.expr(e.left)}))"
+        return super().expr(e)
+
+
+def gen_detector_predicates():
+    import textwrap
+    from tealer.detectors import all_detectors
+    from tealer.utils.teal_enums import TealerTransactionType
+    names = {'rekey-to': 'rekeyTo', 'can-close-account': 'canCloseAccount', 'can-close-asset': 'canCloseAsset', 'missing-fee-check': 'feeCheck',
+             'is-updatable': 'isUpdatable', 'is-deletable': 'isDeletable', 'unprotected-updatable': 'anyoneCanUpdate', 'unprotected-deletable': 'anyoneCanDelete'}
+    out, errors = ["/-- the fields of a block context that the detector predicates read -/", "structure GCtx where",
+                   "  rekeytoAny : Bool", "  closetoAny : Bool", "  assetclosetoAny : Bool", "  senderAny : Bool", "  types : List Nat",
+                   "  maxFee : Nat", "  maxFeeUnknown : Bool", ""], []
+    by_name = {d.NAME: d for n, d in vars(all_detectors).items() if inspect.isclass(d) and hasattr(d, 'NAME')}
+    for dn, ln in names.items():
+        try:
+            cls = by_name[dn]
+            tree = ast.parse(textwrap.dedent(inspect.getsource(cls.detect))).body[0]
+            fns = [n for n in ast.walk(tree) if isinstance(n, ast.FunctionDef) and n.name == 'checks_field']
+            if len(fns) != 1: raise Untranslatable(f"{len(fns)} nested checks_field functions")
+            fn = fns[0]
+            arg = fn.args.args[0].arg
+            body = DetectorTranslator(arg, TealerTransactionType).body([st for st in fn.body])
+            out += [f"/-- translated from {cls.__name__}.detect.checks_field ({dn}) -/", f"def checks_{ln} (c : GCtx) : Bool :=", f"  {body}", ""]
+        except (Untranslatable, KeyError) as e:
+            errors.append(f"{dn}.checks_field: {e}")
+            out += [f"-- {dn}.checks_field could not be translated: {e}", ""]
+    return out, errors
+
+
+class ValidatedTranslator(FeeTranslator):
+    """detectors/utils.py validated_in_block -> Lean, polymorphic in the context type: `function.transaction_context(block)`
+    is `self`, `.gtxn_context(i)` is `gtxn i`, `.group_indices` is `groupIndices`, `checks_field(x)` is `chk x`; handles
+    `if x is not None:` (match on the option) and the loop `for i in L: if not P: return False` ... `return True` (List.all)"""
+    def is_ctx(self, e):
+        return (isinstance(e, ast.Call) and isinstance(e.func, ast.Attribute) and e.func.attr == 'transaction_context'
+                and isinstance(e.func.value, ast.Name) and e.func.value.id == 'function' and len(e.args) == 1
+                and isinstance(e.args[0], ast.Name) and e.args[0].id == 'block')
+
+    def expr(self, e):
+        if self.is_ctx(e): return "self"
+        if isinstance(e, ast.Call) and isinstance(e.func, ast.Attribute) and e.func.attr == 'gtxn_context' and self.is_ctx(e.func.value) and len(e.args) == 1:
+            return f"(gtxn {self.expr(e.args[0])})"
+        if isinstance(e, ast.Attribute) and e.attr == 'group_indices' and self.is_ctx(e.value):
+            return "groupIndices"
+        if isinstance(e, ast.Call) and isinstance(e.func, ast.Name) and e.func.id == 'checks_field' and len(e.args) == 1:
+            return f"(chk {self.expr(e.args[0])})"
+        return super().expr(e)
+
+    def body(self, stmts, fallthrough=None):
+        if stmts:
+            s = stmts[0]
+            # `if x is not None: <returns>` -> match on the option
+            if (isinstance(s, ast.If) and isinstance(s.test, ast.Compare) and len(s.test.ops) == 1 and isinstance(s.test.ops[0], ast.IsNot)
+                    and isinstance(s.test.left, ast.Name) and isinstance(s.test.comparators[0], ast.Constant) and s.test.comparators[0].value is None and not s.orelse):
+                v = s.test.left.id
+                rest = self.body(stmts[1:], fallthrough)
+                return f"(match {v} with | some {v} => {self.body(s.body, None)} | none => {rest})"
+            # `for i in L: if not P: return False` then `return True`
+            if (isinstance(s, ast.For) and isinstance(s.target, ast.Name) and not s.orelse and len(s.body) == 1 and isinstance(s.body[0], ast.If)
+                    and not s.body[0].orelse and isinstance(s.body[0].test, ast.UnaryOp) and isinstance(s.body[0].test.op, ast.Not)
+                    and len(s.body[0].body) == 1 and isinstance(s.body[0].body[0], ast.Return) and isinstance(s.body[0].body[0].value, ast.Constant)
+                    and s.body[0].body[0].value.value is False):
+                rest = [x for x in stmts[1:] if not (isinstance(x, ast.Expr) and isinstance(x.value, ast.Constant))]
+                if len(rest) == 1 and isinstance(rest[0], ast.Return) and isinstance(rest[0].value, ast.Constant) and rest[0].value.value is True:
+                    return f"({self.expr(s.iter)}.all fun {s.target.id} => {self.expr(s.body[0].test.operand)})"
+                raise Untranslatable("loop not followed by `return True`")
+            if isinstance(s, ast.If) and not s.orelse and fallthrough is None and len(stmts) > 1:
+                # `if c: return X` followed by more statements
+                return f"(if {self.expr(s.test)} then {self.body(s.body, None)} else {self.body(stmts[1:], None)})"
+        return super().body(stmts, fallthrough)
+
+
 def gen_leaf():
     from tealer.analyses.dataflow.transaction_context import fee_field
     errors = []
     out = ["/- REGENERATED on every run by harness/extract.py: leaf decision functions translated from the Python AST of /repo. -/",
-           "import TealerModel.Syntax", "import TealerModel.Generated.Consts", "namespace Tealer.Generated", "",
+           "import TealerModel.Syntax", "import TealerModel.OSet", "import TealerModel.Generated.Consts", "namespace Tealer.Generated", "",
            "structure GFeeValue where", "  isUnknown : Bool", "  value : Nat", "deriving DecidableEq, Repr", ""]
     tr = FeeTranslator()
     for name, lean_name, params in (('_union', 'feeUnion', '(a b : GFeeValue) : GFeeValue'),
@@ -251,6 +419,45 @@ def gen_leaf():
         except Untranslatable as e:
             errors.append(f"FeeField.{name}: {e}")
             out += [f"-- FeeField.{name} could not be translated: {e}", ""]
+    from tealer.analyses.dataflow.transaction_context import int_fields
+    try:
+        import textwrap
+        fn = int_fields.GroupIndices._get_asserted_int_values
+        tree = ast.parse(textwrap.dedent(inspect.getsource(fn))).body[0]
+        body = IntTranslator().body(tree.body)
+        out += ["/-- translated from int_fields.GroupIndices._get_asserted_int_values -/",
+                "def intAssertedValues (comparison_ins : Cmp) (compared_int : Nat) (universal_set : List Nat) : List Nat :=", f"  {body}", ""]
+    except Untranslatable as e:
+        errors.append(f"GroupIndices._get_asserted_int_values: {e}")
+        out += [f"-- GroupIndices._get_asserted_int_values could not be translated: {e}", ""]
+    from tealer.analyses.dataflow.transaction_context import addr_fields, txn_types
+    for cls, pre, elem in ((addr_fields.AddrFields, 'addr', 'String'), (int_fields.GroupIndices, 'int', 'Nat'), (txn_types.TxnType, 'txnType', 'Nat')):
+        for name, suffix in (('_union', 'Union'), ('_intersection', 'Inter')):
+            try:
+                import textwrap
+                tree = ast.parse(textwrap.dedent(inspect.getsource(getattr(cls, name)))).body[0]
+                argn = [a.arg for a in tree.args.args]
+                if argn != ['self', 'key', 'a', 'b']: raise Untranslatable(f"unexpected signature {argn}")
+                body = SetTranslator(cls).body(tree.body)
+                out += [f"/-- translated from {cls.__name__}.{name} -/", f"def {pre}{suffix} (a b : List {elem}) : List {elem} :=", f"  {body}", ""]
+            except Untranslatable as e:
+                errors.append(f"{cls.__name__}.{name}: {e}")
+                out += [f"-- {cls.__name__}.{name} could not be translated: {e}", ""]
+    o2, e2 = gen_detector_predicates()
+    out += o2; errors += e2
+    try:
+        import textwrap
+        from tealer.detectors import utils as dutils
+        tree = ast.parse(textwrap.dedent(inspect.getsource(dutils.validated_in_block))).body[0]
+        argn = [a.arg for a in tree.args.args]
+        if argn != ['block', 'function', 'checks_field', 'absolute_index']: raise Untranslatable(f"unexpected signature {argn}")
+        body = ValidatedTranslator().body(tree.body)
+        out += ["/-- translated from detectors/utils.py validated_in_block -/",
+                "def validatedInBlock {α : Type} (chk : α → Bool) (self : α) (gtxn : Nat → α) (groupIndices : List Nat) (absolute_index : Option Nat) : Bool :=",
+                f"  {body}", ""]
+    except Untranslatable as e:
+        errors.append(f"validated_in_block: {e}")
+        out += [f"-- validated_in_block could not be translated: {e}", ""]
     out += ["end Tealer.Generated", ""]
     return "\n".join(out), errors
 
